@@ -145,6 +145,9 @@ impl<'a> B<'a> {
         let mut victim = w.create::<Big>((Byte(9),));
         let old = w.to_direct(keep).unwrap();
         let old_any = w.to_direct(keep.into_any()).unwrap();
+        // the first occupant of the slot that is recycled below: its generation distance grows with the removals
+        let first_victim = victim;
+        let mut accepted_stale_entity = 0usize;
         let mut removals: u64 = 0;
         let mut accepted_stale = 0usize;
         let mut refused_fresh = 0usize;
@@ -160,12 +163,17 @@ impl<'a> B<'a> {
                 || ecs_find!(w, old, |b: &Byte| b.0).is_some() || ecs_find_borrow!(w, old_any, |b: &Byte| b.0).is_some() {
                 accepted_stale += 1;
             }
+            if w.contains(first_victim) || w.contains(first_victim.into_any()) || w.to_direct(first_victim).is_some()
+                || w.view(first_victim).is_some() || ecs_find!(w, first_victim.into_any(), |b: &Byte| b.0).is_some() {
+                accepted_stale_entity += 1;
+            }
+            if !w.contains(victim) || w.view(victim).map(|v| v.byte.0) != Some((removals - 1) as u8) { refused_fresh += 1; }
             let fresh = w.to_direct(keep).unwrap();
             if !w.contains(fresh) || ecs_find!(w, fresh, |b: &Byte| b.0) != Some(7) { refused_fresh += 1; }
         }
         self.w = Some(w);
         self.emit(vec![("op", J::s("direct_distance")), ("removals", ji(removals as usize)), ("checked", ji(checked)),
-                       ("accepted_stale", ji(accepted_stale)), ("refused_fresh", ji(refused_fresh))]);
+                       ("accepted_stale", ji(accepted_stale)), ("accepted_stale_entity", ji(accepted_stale_entity)), ("refused_fresh", ji(refused_fresh))]);
     }
 }
 
